@@ -26,7 +26,7 @@ ASSUMPTIONS = [
     "the undisturbed run of the same problem is the reference; the library is deterministic for a fixed request history (checked by C10)",
     "custom solve_sylvester excludes fully_diagonalize (NotImplementedError by design), so selections are not part of this check",
 ]
-BUDGET = {"quick": dict(cases=300, seconds=75), "thorough": dict(cases=6000, seconds=540)}
+BUDGET = {"quick": dict(cases=300, seconds=300), "thorough": dict(cases=6000, seconds=540)}
 CASE_TIMEOUT = 200
 MONITORS = {"product": False, "solvers": False}
 MONITOR_VERDICTS = ("pending",)
